@@ -37,7 +37,7 @@ var ops12 = []string{"&&", "||", "<", ">", "<=", ">=", "=", "<>", "+", "-", "*",
 
 // Operand of a chain.
 type Operand struct {
-	Kind  string `json:"kind"`            // leaf | app | paren
+	Kind  string `json:"kind"`            // leaf | app | paren | int (Name holds the digits)
 	Name  string `json:"name,omitempty"`  // leaf: variable; app: function
 	Arg   string `json:"arg,omitempty"`   // app: argument variable
 	Not   bool   `json:"not,omitempty"`   // prefixed by `not`
@@ -49,6 +49,9 @@ type Chain struct {
 	Operands []Operand `json:"operands"`
 	Ops      []string  `json:"ops"`
 	Breaks   []int     `json:"breaks,omitempty"` // Breaks[i] > 0: line break before operator i, continuation indented by that many columns
+	// Tight[i] (arithmetic operators only): how operator i is spaced: 0 `a - b`, 1 `a -b`, 2 `a- b`, 3 `a-b`.
+	// Blanks around a binary operator carry no meaning: `a -1` is a subtraction like `a - 1`.
+	Tight []int `json:"tight,omitempty"`
 }
 
 // reference grouping ----------------------------------------------------------
@@ -56,7 +59,7 @@ type Chain struct {
 func (o Operand) tree() string {
 	var s string
 	switch o.Kind {
-	case "leaf":
+	case "leaf", "int":
 		s = o.Name
 	case "app":
 		s = "(app " + o.Name + " " + o.Arg + ")"
@@ -120,6 +123,9 @@ func parseTree(s string) *tnode {
 
 func wellTyped(n *tnode) (kind string, ok bool) {
 	if n.leaf {
+		if n.op != "" && n.op[0] >= '0' && n.op[0] <= '9' {
+			return "int", true
+		}
 		return "any", true
 	}
 	var ks []string
@@ -155,7 +161,7 @@ func wellTyped(n *tnode) (kind string, ok bool) {
 func (o Operand) src() string {
 	var s string
 	switch o.Kind {
-	case "leaf":
+	case "leaf", "int":
 		s = o.Name
 	case "app":
 		s = o.Name + " " + o.Arg
@@ -175,11 +181,31 @@ func (c *Chain) src(baseIndent int) string {
 		if baseIndent > 0 && i < len(c.Breaks) && c.Breaks[i] > 0 {
 			sb.WriteString("\n" + strings.Repeat(" ", baseIndent+c.Breaks[i]-1) + op + " ")
 		} else {
-			sb.WriteString(" " + op + " ")
+			switch tight := c.tightAt(i); tight {
+			case 1:
+				sb.WriteString(" " + op)
+			case 2:
+				sb.WriteString(op + " ")
+			case 3:
+				sb.WriteString(op)
+			default:
+				sb.WriteString(" " + op + " ")
+			}
 		}
 		sb.WriteString(c.Operands[i+1].src())
 	}
 	return sb.String()
+}
+
+func (c *Chain) tightAt(i int) int {
+	if i >= len(c.Tight) || c.Operands[i+1].Not {
+		return 0
+	}
+	switch c.Ops[i] {
+	case "+", "-", "*", "/":
+		return c.Tight[i]
+	}
+	return 0
 }
 
 func (c *Chain) names(set map[string]bool, order *[]string) {
@@ -240,6 +266,8 @@ func goTree(e ast.Expr) (string, error) {
 		return goTree(x.X)
 	case *ast.Ident:
 		return x.Name, nil
+	case *ast.BasicLit:
+		return x.Value, nil
 	case *ast.SelectorExpr:
 		if id, ok := x.X.(*ast.Ident); ok {
 			return id.Name + "." + x.Sel.Name, nil
@@ -584,8 +612,10 @@ func genChain(t *rapid.T, depth int, nameCtr *int, allowBreaks bool) *Chain {
 	for i := 0; i <= n+npipes; i++ {
 		var o Operand
 		afterPipe := i > 0 && c.Ops[i-1] == "|>"
-		k := rapid.IntRange(0, 9).Draw(t, "operandKind")
+		k := rapid.IntRange(0, 10).Draw(t, "operandKind")
 		switch {
+		case !afterPipe && k == 10:
+			o = Operand{Kind: "int", Name: rapid.SampledFrom([]string{"0", "1", "7", "10", "255"}).Draw(t, "intLit")}
 		case afterPipe:
 			// the right operand of |> is a function: a function variable, or
 			// (sometimes) a parenthesised function variable
@@ -613,7 +643,20 @@ func genChain(t *rapid.T, depth int, nameCtr *int, allowBreaks bool) *Chain {
 		}
 		c.Operands = append(c.Operands, o)
 	}
+	if depth == 0 {
+		// a function needs a parameter: at least one operand is a variable
+		set, order := map[string]bool{}, []string{}
+		c.names(set, &order)
+		if len(order) == 0 {
+			c.Operands[0] = Operand{Kind: "leaf", Name: fresh("v")}
+		}
+	}
 	n += npipes
+	if rapid.IntRange(0, 2).Draw(t, "spacing") == 0 {
+		for i := 0; i < n; i++ {
+			c.Tight = append(c.Tight, rapid.SampledFrom([]int{0, 0, 1, 1, 2, 3}).Draw(t, "tight"))
+		}
+	}
 	if allowBreaks && rapid.IntRange(0, 2).Draw(t, "layout") == 0 {
 		for i := 0; i < n; i++ {
 			b := 0
@@ -635,11 +678,18 @@ func features(c *Chain, f map[string]bool) {
 			f["pipe"] = true
 		}
 	}
+	for i := range c.Ops {
+		if c.tightAt(i) != 0 {
+			f["arithmetic operator written without a blank on one or both sides"] = true
+		}
+	}
 	for _, o := range c.Operands {
 		if o.Not {
 			f["not"] = true
 		}
 		switch o.Kind {
+		case "int":
+			f["integer literal operand"] = true
 		case "app":
 			f["application operand"] = true
 			if strings.Contains(o.Arg, ".") {
